@@ -24,7 +24,8 @@ then `return E` / `self.static_p_array = E`)
         | numpy.gradient(V)                              -> gradient V
         | polynomial_least_square_fitting(V, V, V, order=Z)  -> plsq xs ys xnew Z          (axis of xnew)
         | self.fit_modulus(V [, order=Z | , Z])          -> g_fit_modulus ...               (get_static_modulus only)
-        | numpy.array([volume.<field> for volume in self.<file>.volumes])                    (exact text; the sources)
+        | numpy.array([volume.<field> for volume in self.<file>.volumes])                    (exact text; the sources;
+          the iterable may be a local alias `name = self.<file>.volumes` of the same record list)
     S ::= V[n]                                           n a non-negative integer literal
     C ::= numpy.polyfit(V, V, deg=Z) | numpy.polyfit(V, V, Z) | local
     Z ::= <int parameter with literal default> | int literal | Z + Z
@@ -65,6 +66,8 @@ class Flow:
         self.vec_params = dict(vec_params)    # python name -> (axis, coq term)
         self.int_params = dict(int_params)    # python name -> coq term
         self.allow_fit = allow_fit
+        # attribute reads that yield the list of per-volume records of an input file (pure reads of plain data objects)
+        self.record_lists = {m.group(1) for t in sources for m in [re.search(r" in (self\.\w+\.volumes)\]\)$", t)] if m}
 
     def bail(self, node, what):
         raise TranslateError(self.file, node, what)
@@ -82,7 +85,7 @@ class Flow:
     def need(self, e, kind):
         k, ax, t = self.expr(e)
         if k != kind:
-            self.bail(e, "`%s` is a %s where a %s is required" % (src_of(e)[:80], {"V": "vector", "S": "scalar", "C": "coefficient vector"}[k],
+            self.bail(e, "`%s` is a %s where a %s is required" % (src_of(e)[:80], {"V": "vector", "S": "scalar", "C": "coefficient vector", "L": "record list"}[k],
                                                               {"V": "vector", "S": "scalar", "C": "coefficient vector"}[kind]))
         return ax, t
 
@@ -93,8 +96,22 @@ class Flow:
             self.bail(e, "keyword arguments of `%s`" % src_of(e)[:100])
         return list(e.args), kws
 
+    def source_text(self, e):
+        """text of `e` with an alias local of a record list (`name = self.<file>.volumes`) expanded where it is the iterable
+        of `numpy.array([<elt> for <var> in <iterable>])`"""
+        if isinstance(e, ast.Call) and src_of(e.func) == "numpy.array" and len(e.args) == 1 and not e.keywords \
+                and isinstance(e.args[0], ast.ListComp) and len(e.args[0].generators) == 1:
+            g = e.args[0].generators[0]
+            if isinstance(g.iter, ast.Name) and g.iter.id in self.env and self.env[g.iter.id][0] == "L" \
+                    and not g.ifs and not g.is_async:
+                return "numpy.array([%s for %s in %s])" % (src_of(e.args[0].elt), src_of(g.target), self.env[g.iter.id][2])
+        return src_of(e)
+
     def expr(self, e):
-        s = src_of(e)
+        s = self.source_text(e)
+        if s in self.record_lists:
+            # the list of per-volume records itself: only usable as the iterable of a source comprehension
+            return "L", None, s
         if s in self.sources:
             ax, t = self.sources[s]
             return "V", ax, t
@@ -226,6 +243,9 @@ class Flow:
         if not nm.isidentifier() or not nm.isascii():
             self.bail(s, "local name `%s`" % nm)
         k, ax, t = val
+        if k == "L":                      # alias of a record list: no Coq value, remembered by its source text
+            self.env[nm] = (k, ax, t)
+            return
         v = self.version.get(nm, 0) + 1
         self.version[nm] = v
         ident = "l_%s_%d" % (nm, v)
